@@ -114,6 +114,35 @@ func init() {
 				r.failFilter = nil
 			}
 		}
+		// every ACCEPTED program of C05's expressions-in-contexts product runs on both backends
+		c.Scenarios = append(c.Scenarios, Scenario{Name: "accepted-expressions-in-contexts", Count: func(string) int { return c05CtxCount() }, Run: func(_ string, idx int, r *Result) {
+			text, tags := c05CtxProgram(idx)
+			a := Analyze(map[string]string{"main": text}, true)
+			if a.Obs.Class == "HOST-PANIC" || !a.Obs.Accepted() {
+				r.Note("not-accepted", 1)
+				return
+			}
+			r.Sample(text)
+			for _, be := range []string{"vm", "tree"} {
+				var o Obs
+				if be == "vm" {
+					o = RunVM(a, defaultOpts())
+					r.Obs(o)
+				} else {
+					o = RunTree(a, defaultOpts())
+				}
+				r.Trans(1)
+				r.Outcome(be + ":" + o.Class)
+				r.Distinct(be + "|" + o.Key())
+				if cc := crashClass(o); cc != "" {
+					if o.Class == "HANG" && o.Msg == "poll budget exceeded" {
+						r.Note("ran-longer-than-the-poll-budget(no reference; e.g. `loop { continue; }`)", 1)
+						continue
+					}
+					r.Fail(cc, append([]string{"backend:" + be, "expressions-in-contexts"}, tags...), text, o.String())
+				}
+			}
+		}})
 		nMembers := func(tier string) int { return len(c18Cases(tier)) }
 		c.Scenarios = append(c.Scenarios,
 			Scenario{Name: "builtin-members-direct", Count: nMembers, Run: crashOnly(c18Direct)},
